@@ -61,6 +61,51 @@ Fixpoint bytes_cmp (a b : bytes) : Z :=
   | x :: a', y :: b' => if (code x <? code y)%N then -1 else if (code y <? code x)%N then 1 else bytes_cmp a' b'
   end.
 
+(* isValidJSONNumber (mlrval_json.go): optional minus; 0 or a non-zero digit followed by digits; optional fraction
+   (dot, one or more digits); optional exponent (e/E, optional sign, one or more digits) *)
+Definition is_dig (c : ascii) : bool := in_range "0" "9" c.
+Fixpoint skip_digits (s : bytes) : bytes :=
+  match s with c :: t => if is_dig c then skip_digits t else s | [] => [] end.
+Definition json_exp_ok (s : bytes) : bool :=        (* after the integer and fraction parts *)
+  match s with
+  | [] => true
+  | c :: t =>
+      if eqc c "e" || eqc c "E" then
+        let t1 := match t with d :: t' => if eqc d "+" || eqc d "-" then t' else t | [] => t end in
+        match t1 with
+        | d :: t2 => is_dig d && match skip_digits t2 with [] => true | _ => false end
+        | [] => false
+        end
+      else false
+  end.
+Definition json_frac_ok (s : bytes) : bool :=       (* after the integer part *)
+  match s with
+  | c :: t =>
+      if eqc c "." then
+        match t with
+        | d :: t' => is_dig d && json_exp_ok (skip_digits t')
+        | [] => false
+        end
+      else json_exp_ok s
+  | [] => true
+  end.
+Definition is_valid_json_number (s : bytes) : bool :=
+  let s1 := match s with c :: t => if eqc c "-" then t else s | [] => s end in
+  match s1 with
+  | [] => false
+  | c :: t =>
+      if eqc c "0" then json_frac_ok t
+      else if in_range "1" "9" c then json_frac_ok (skip_digits t)
+      else false
+  end.
+
+(* what the JSON writer does with a scalar's text *)
+Inductive jout :=
+| JSame (s : bytes)        (* the text as it stands *)
+| JDecimal (s : bytes)     (* ints: always re-rendered in decimal *)
+| JRerendered              (* floats whose text is not a legal JSON number: strconv.FormatFloat *)
+| JQuoted.                 (* strings / empty: quoted and escaped *)
+
 Section WithInferrer.
   (* the package-level inferrer selected by -S/-A/-O, as a function from the retained text to C06's result;
      [ofmt]: Some f when --ofmt is given (f renders a float's bits), None otherwise *)
@@ -121,6 +166,19 @@ Section WithInferrer.
 
   Definition is_numeric_ty (t : mvtype) := match t with TInt | TFloat => true | _ => false end.
   Definition is_strvoid_ty (t : mvtype) := match t with TString | TVoid => true | _ => false end.
+
+  (* marshalJSONAux on a scalar: Type(); ints -> decimal; floats -> String(), kept iff a legal JSON number *)
+  Definition format_as_json (m : mlrval) : mlrval * jout :=
+    let f := force m in
+    match ty f, pay f with
+    | TInt, PInt n => (f, JDecimal (format_int n))
+    | TFloat, _ => let '(m1, o) := string_op f in
+                   (m1, match o with
+                        | Some s => if is_valid_json_number s then JSame s else JRerendered
+                        | None => JRerendered
+                        end)
+    | _, _ => (f, JQuoted)
+    end.
 
   (* ---- unary read operations: new value state, observation (number, bytes).  The observation encodings are
      those of harness/go/implrun/c03.go. *)
@@ -198,11 +256,8 @@ Section WithInferrer.
     | UFormatAsJSON =>
         (* marshalJSONAux: Type(); ints are re-rendered in decimal (documented); floats go through String();
            string escaping is not modelled (observation skipped) *)
-        match ty f, pay f with
-        | TInt, PInt n => (f, (0, Some (format_int n)))
-        | TFloat, _ => (fst (string_op f), unk)
-        | _, _ => (f, unk)
-        end
+        let '(m1, j) := format_as_json m in
+        (m1, match j with JSame s => (0, Some s) | JDecimal s => (0, Some s) | _ => unk end)
     | UStringify => (stringify_op m, onone)
     | UFormat via_string => if via_string then (fst (string_op m), onone) else (f, onone)
     | UBif forces strings =>
@@ -356,8 +411,8 @@ Section WithInferrer.
     end.
 
   (* Rename (mlrmap_accessors.go): absent old -> no-op; new absent -> key replaced in place;
-     new present -> old's value moves into new's slot, old's entry is unlinked (so `rename a,a` REMOVES a:
-     findEntry(new) is the entry itself, which is then unlinked) *)
+     old = new -> no-op (since /repo bdf02f36c; before, the entry was unlinked);
+     new present -> old's value moves into new's slot, old's entry is unlinked *)
   Fixpoint rename_key (old new : bytes) (r : mrecord) : mrecord :=
     match r with
     | [] => []
@@ -366,7 +421,8 @@ Section WithInferrer.
   Definition mrename (old new : bytes) (r : mrecord) : mrecord :=
     match mget old r with
     | None => r
-    | Some v => if mhas new r then mremove old (mput new v r) else rename_key old new r
+    | Some v => if beqb old new then r
+                else if mhas new r then mremove old (mput new v r) else rename_key old new r
     end.
 
   (* the set of keys whose cells the model does not predict *)
@@ -430,6 +486,9 @@ Section WithInferrer.
   Definition run_program (l : list ract) (r : record) : list (bytes * cell) :=
     write_record (apply_racts l (read_record r, [])).
 End WithInferrer.
+
+Fixpoint aget {A} (k : bytes) (l : list (bytes * A)) : option A :=
+  match l with [] => None | (k', v) :: t => if beqb k k' then Some v else aget k t end.
 
 (* projection used by the record-level theorem: the fields whose keys are outside a set W, in order *)
 Definition outside {A} (W : list bytes) (l : list (bytes * A)) : list (bytes * A) :=
